@@ -4,10 +4,10 @@
    observables are compared: the label's own output (Peek result, infos produced by the real doLookup,
    info handed to the consumer), the cache (key set and the instance served per key), the four
    statistics counters, and the contents of the two stacks the real handleInstanceInfo / doRefresh
-   append to.  The code reads the wall clock in handleInstanceInfo and Peek; the harness moves the stamps
-   those calls wrote onto its virtual time axis right after the call (hook VerifRebaseStamps), so the
-   expiry and last-access stamp of every entry are compared exactly as well, and refresh ticks can sit
-   exactly on the idle / expiry boundaries. *)
+   append to.  The code reads the wall clock in handleInstanceInfo and Peek; the harness keeps all stamps at a
+   known offset from its virtual clock and replaces the stamps a step wrote by exactly that step's clock
+   reading (+ the TTL the code added), so the expiry and last-access stamp of every entry are compared
+   exactly (in virtual nanoseconds) as well, and refresh ticks can sit exactly on the idle / expiry boundaries. *)
 From GS Require Export Base.Bytes Base.CorrLib Model.InstanceCache Model.InstanceDispatcher.
 From stdpp Require Import gmap.
 Local Open Scope Z_scope.
